@@ -557,6 +557,44 @@ impl<'a, S: Setup> G<'a, S> {
             self.push(Stmt::Connect(p, m2), vec![]);
         }
     }
+    /// The exposed output of a non-primitive row (recomposition) tied to a product that is an
+    /// op-level duplicate (through a connect-aliased operand) of an earlier product.
+    fn npo_output_on_duplicate_product(&mut self) {
+        if S::D == 1 {
+            return self.binop();
+        }
+        let (y, p0, q0) = (self.var(), self.var(), self.var());
+        let x = {
+            let v = self.vals[p0] + self.vals[q0];
+            self.push(Stmt::Add(p0, q0), vec![v])
+        };
+        let _m1 = {
+            let v = self.vals[x] * self.vals[y];
+            self.push(Stmt::Mul(x, y), vec![v])
+        };
+        let vx = self.vals[x];
+        let x2 = self.new_input(vx);
+        self.push(Stmt::Connect(x, x2), vec![]);
+        let m2 = {
+            let v = self.vals[x2] * self.vals[y];
+            self.push(Stmt::Mul(x2, y), vec![v])
+        };
+        // coefficients of the product's value as fresh inputs, recomposed (NPO row when enabled)
+        let cs: Vec<V> = S::coeffs(&self.vals[m2]).iter().map(|c| {
+            let v = S::el(&[*c]);
+            self.new_input(v)
+        }).collect();
+        let cv: Vec<S::E> = cs.iter().map(|c| self.vals[*c]).collect();
+        let rv = crate::prog::basis_recompose::<S>(&cv);
+        let r = self.push(Stmt::RecomposeExt(cs, 0), vec![rv]);
+        if chance(self.rng, 1, 2) {
+            self.push(Stmt::Connect(r, m2), vec![]);
+        } else {
+            self.push(Stmt::Connect(m2, r), vec![]);
+        }
+        let sv = self.vals[r] + self.vals[y];
+        self.push(Stmt::Add(r, y), vec![sv]);
+    }
     fn duplicate(&mut self) {
         // re-emit an earlier binary statement commutated, or with an operand replaced by a
         // var connected to it (de-duplication through connect).
@@ -768,6 +806,8 @@ pub fn gen_prog<S: Setup>(rng: &mut SmallRng, opts: &GenOpts) -> Generated<S> {
             g.ext();
         } else if r < c + 63 {
             g.misc();
+        } else if r >= 99 {
+            g.npo_output_on_duplicate_product();
         } else if r >= 98 {
             g.private_on_duplicate_product();
         } else if r >= 96 {
